@@ -12,6 +12,7 @@ from vf.props import C02
 from vf.runner import Collector
 
 ID = "C14"
+EARLY_ATTRIBUTION = True  # region predicates are cheap scans of the stored case
 LEVEL = "exploration"
 RULE = ("Targets = grammar-generated script sources (incl. near-misses that fail) and generated models with planted rewrite-rule hosts, "
         "each with an operation (translate / optimize / optimize_ir / rewrite with the shared module-level rule objects / fold_constants / "
